@@ -4,6 +4,7 @@ from ops import *
 from norm import fn as fmt_n
 from runner import site_of
 from termutil import *
+from interp import peel
 
 EXPLANATION = (
     "Decision-table extraction. Each built-in leaf validator body is a loop-free DAG: all MIR paths are enumerated, branch "
@@ -38,6 +39,8 @@ class Atomizer:
         # ok($claims.i) / $claims.i  -> claim name ; $self.i -> validator field ; Add/Sub(now, leeway)
         if isinstance(t, tuple) and t and t[0] == "ok":
             t = t[1]
+        if isinstance(t, tuple) and len(t) == 2 and t[0] == "ptr" and isinstance(t[1], tuple) and t[1] and t[1][0] == "fld":
+            t = t[1]      # a reference to / string view of the field (comparisons are by value)
         if isinstance(t, tuple) and t and t[0] == "fld" and t[1] == ("in", "claims") and t[2] < len(self.cf):
             return "claims." + self.cf[t[2]]
         if isinstance(t, tuple) and t and t[0] == "fld" and t[1] == ("in", "self") and self.sf and t[2] < len(self.sf):
@@ -58,14 +61,17 @@ class Atomizer:
         return None
 
     def atom(self, cond):
-        """-> (kind, key, fn) where fn(value_of_atom) gives the integer the switch sees; or None."""
+        """-> (state variables read, fn(env) -> the integer the switch sees); or None.
+        State variables: ('present', claim) in {False, True}; ('cmp', (a, b)) in {'<', '=', '>'} for two timestamps;
+        ('streq', (claim, other)) in {False, True}: the claim's string, when present, equals `other`."""
         c = cond
         if isinstance(c, tuple) and c and c[0] == "discr":
             x = self.operand(c[1])
             if x and x.startswith("claims."):
-                return ("present", x, lambda v: 1 if v else 0)
+                k = ("present", x)
+                return ((k,), lambda env, k=k: 1 if env[k] else 0)
         if isinstance(c, tuple) and c and c[0] == "call":
-            m = re.match(r"<(Timestamp|Option<&str>|&?str|String) as Partial(Ord|Eq)>::(lt|le|gt|ge|eq|ne)$", c[1])
+            m = re.match(r"(?:<(Timestamp|Option<&str>|&?str|String) as Partial(?:Ord|Eq)>|core::cmp::impls::<impl Partial(?:Ord|Eq) for (&?str)>)::(lt|le|gt|ge|eq|ne)$", c[1])
             if m and len(c[2]) == 2:
                 a, b = self.operand(c[2][0]), self.operand(c[2][1])
                 if a and b:
@@ -73,23 +79,51 @@ class Atomizer:
                     if m.group(1) == "Timestamp":
                         key = (a, b) if a <= b else (b, a)
                         flip = (a, b) != key
-                        def f(v, op=op, flip=flip):
+                        k = ("cmp", key)
+                        def f(env, op=op, flip=flip, k=k):
+                            v = env[k]
                             vv = {"<": ">", ">": "<", "=": "="}[v] if flip else v
                             return 1 if CMP_FUNCS[op](vv) else 0
-                        return ("cmp", key, f)
-                    key = (a, b) if a <= b else (b, a)
-                    return ("eqstr", key, (lambda v, op=op: 1 if (v if op == "eq" else not v) else 0))
+                        return ((k,), f)
+                    if op not in ("eq", "ne"):
+                        return None
+                    # Option-level (claims.x == Some(other)) or inner-level (the Some payload of claims.x == other)
+                    inner = self.is_payload(c[2][0]) or self.is_payload(c[2][1])
+                    cl, other = (a, b) if a.startswith("claims.") else (b, a)
+                    if not cl.startswith("claims.") or other.startswith("claims."):
+                        return None
+                    if inner:
+                        if other.startswith("Some("):
+                            return None
+                        ks = ("streq", (cl, other))
+                        return ((ks,), lambda env, op=op, ks=ks: 1 if (env[ks] if op == "eq" else not env[ks]) else 0)
+                    if not other.startswith("Some("):
+                        return None
+                    kp, ks = ("present", cl), ("streq", (cl, other[5:-1]))
+                    return ((kp, ks), lambda env, op=op, kp=kp, ks=ks: 1 if ((env[kp] and env[ks]) if op == "eq" else not (env[kp] and env[ks])) else 0)
             m = re.match(r"core::option::Option::<.*>::(is_none|is_some)$", c[1])
             if m and len(c[2]) == 1:
                 x = self.operand(c[2][0])
                 if x:
-                    return ("present", x, (lambda v, k=m.group(1): 1 if (v if k == "is_some" else not v) else 0))
+                    k = ("present", x)
+                    return ((k,), (lambda env, kk=m.group(1), k=k: 1 if (env[k] if kk == "is_some" else not env[k]) else 0))
         return None
+
+    def is_payload(self, t):
+        """t is the Some-payload of a claim (possibly through as_deref / as_ref plumbing), not the Option itself."""
+        while isinstance(t, tuple) and t:
+            if t[0] == "ok":
+                return True
+            if t[0] == "call" and len(t[2]) == 1 and (t[1].endswith("as_deref") or t[1].endswith("as_ref") or t[1].endswith("::deref") or t[1].endswith("as_str")):
+                t = t[2][0]
+                continue
+            return False
+        return False
 
 import re
 
 def leaf_spec(name):
-    """name -> (required atoms, predicate(env) -> bool). env maps atom keys to values."""
+    """name -> (state variables the validator may read, predicate(env) -> bool). env maps state variables to values."""
     P = lambda f: ("present", "claims." + f)
     def time_like(lo, hi):
         # accept iff (no exp or not exp < lo) and (no nbf or not hi < nbf)
@@ -114,12 +148,12 @@ def leaf_spec(name):
         return {P("exp")}, (lambda env: env[P("exp")])
     for vname, fld in (("ForSubject", "sub"), ("FromIssuer", "iss"), ("ForAudience", "aud")):
         if name == vname:
-            k = ("eqstr", tuple(sorted(("claims." + fld, "Some(self.0)"))))
-            return {k}, (lambda env, k=k: env[k])
+            kp, ks = P(fld), ("streq", ("claims." + fld, "self.0"))
+            return {kp, ks}, (lambda env, kp=kp, ks=ks: env[kp] and env[ks])
     return None
 
-def domain(atom):
-    return ["<", "=", ">"] if atom[0] == "cmp" else [False, True]
+def domain(var):
+    return ["<", "=", ">"] if var[0] == "cmp" else [False, True]
 
 def check_leaf(ctx, name, fnkey):
     cr = ctx.crates["paseto_json"]
@@ -152,18 +186,28 @@ def check_leaf(ctx, name, fnkey):
             gs.append((a, g["value"], g["arms"]))
         verdict = r.okness
         if verdict is None:
+            # the function returns an Option/Result built from a claim through Some/Ok-preserving plumbing
+            # (x.map(..).ok_or(..)): the verdict is the presence of that claim
+            root = peel(r.ret)
+            x = az.operand(run.norm.n(root)) if root is not None else None
+            if x and x.startswith("claims.") and not x.startswith("Some("):
+                k = ("present", x)
+                a = ((k,), lambda env, k=k: 1 if env[k] else 0)
+                paths.append((gs + [(a, 1, [0, 1])], True))
+                paths.append((gs + [(a, 0, [0, 1])], False))
+                continue
             probs.append("path with undetermined verdict: " + fmt_n(run.norm.n(r.ret))[:100])
         paths.append((gs, verdict))
     sp = leaf_spec(name)
     if sp is None:
         probs.append("no specification for validator " + name)
     if not probs:
-        want_atoms, pred = sp
-        code_atoms = {(a[0], a[1]) for gs, _ in paths for (a, _, _) in gs}
-        extra = code_atoms - want_atoms
+        want_vars, pred = sp
+        code_vars = {v for gs, _ in paths for (a, _, _) in gs for v in a[0]}
+        extra = code_vars - want_vars
         if extra:
             probs.append(f"validator tests conditions outside its specification: {sorted(map(str, extra))}")
-        atoms = sorted(want_atoms | code_atoms, key=str)
+        atoms = sorted(want_vars | code_vars, key=str)
         n_assign = 0
         for vals in itertools.product(*[domain(a) for a in atoms]):
             env = dict(zip(atoms, vals))
@@ -172,7 +216,7 @@ def check_leaf(ctx, name, fnkey):
             for gs, verdict in paths:
                 ok = True
                 for (a, val, arms) in gs:
-                    seen = a[2](env[(a[0], a[1])])
+                    seen = a[1](env)
                     taken = val if val != "otherwise" else None
                     if taken is None:
                         if seen in arms:
@@ -184,10 +228,10 @@ def check_leaf(ctx, name, fnkey):
                 if ok:
                     consistent.append(verdict)
             if len(consistent) != 1:
-                probs.append(f"{len(consistent)} paths are consistent with assignment {env} (decision is not a function of the atoms)")
+                probs.append(f"{len(consistent)} paths are consistent with assignment {env} (decision is not a function of the tested conditions)")
                 break
             if consistent[0] != pred(env):
-                shown = {f"{k[0]}{k[1]}": v for k, v in env.items()}
+                shown = {f"{k[0]}:{k[1]}": v for k, v in env.items()}
                 probs.append(f"for {shown} the code {'accepts' if consistent[0] else 'rejects'} but the specification {'accepts' if pred(env) else 'rejects'}")
                 break
         ctx.analysed["call_sites"] += n_assign
